@@ -546,7 +546,9 @@ _branch_variant = {
 }
 
 
-def try_replace_call_with_branch(node: nodes.Call, else_label: str) -> bool:
+def try_replace_call_with_branch(
+    node: nodes.Call, else_label: str, negate: bool = False
+) -> bool:
     from .types import IC10Operand
 
     fname = node.func.as_string()
@@ -555,7 +557,8 @@ def try_replace_call_with_branch(node: nodes.Call, else_label: str) -> bool:
         instr = data.code[""][-1]
         if instr.op != fname:
             return False
-        instr.op = _branch_variant[fname]
+        # the branch leaves the body when the test fails ('if not ...': when it holds)
+        instr.op = "b" + fname[1:] if negate else _branch_variant[fname]
         instr.output = None
         instr.inputs.append(IC10Operand(else_label))
         return True
